@@ -15,7 +15,7 @@ CSTR = dict(bin="cstrfmt", driver="cstrfmt_driver", model_ml="cstrfmt_model", ex
 
 CONFIG = dict(
 
-    claim="Machine-checked proof, over the executable models of all traversals modelled so far, that the stated fuel - a function of the input length - always suffices and that item counts are bounded by the input: relocation blocks (fuel = length, at most len/8 blocks; the builder writes at most 12 bytes per rva), the string enumerator (at most length+1 items), sentinel / predicate scans and C strings on both read paths (fuel = slice length / element size + 1), the two backward scans of the Rich header, the pattern parser on any byte string (fuel length+1), the pattern interpreter on any atom list (fuel |pat|+1 per invocation, program counter as measure), and the escape loops of <CStr as Debug>/<CStr as Display> (fuel length+1, at most 4 output bytes per byte; F15 repaired). The traversals of the directory parsers are stated in their own properties (C08 binary search, C12 resource tree and fsck, C13 TLV parser, C10 scanner). Tied to /repo by re-running every component correspondence under a per-case CPU budget in isolated worker processes (a case that exceeds it is re-run alone with ten times the budget before it is called a hang), plus a walker that calls every iterator, formatter, serializer, fsck and scanner query on the shipped PE files and field-level corruptions of them with item-count assertions.",
+    claim="Machine-checked proof, over the executable models of all traversals modelled so far, that the stated fuel - a function of the input length - always suffices and that item counts are bounded by the input: relocation blocks (fuel = length, at most len/8 blocks; the builder writes at most 12 bytes per rva), the string enumerator (at most length+1 items), sentinel / predicate scans and C strings on both read paths (fuel = slice length / element size + 1), the two backward scans of the Rich header, the pattern parser on any byte string (fuel length+1), the pattern interpreter on any atom list (fuel |pat|+1 per invocation, program counter as measure), and the escape loops of <CStr as Debug>/<CStr as Display> (fuel length+1, at most 4 output bytes per byte; F15 repaired). Restated from the directory modules: the exception binary search terminates on any table (C03_exception_search_terminates), POGO records (C03_pgo_iter_terminates), fsck on any section bytes including directories that contain themselves (C03_resources_fsck_terminates), the TLV parser stops after an error and the version-info walk completes with any visitor (C03_tlv_parser_stops_after_error, C03_version_info_walk_terminates), forward-only iterators stay exhausted (C03_forward_iterators_fused); the export binary search (fuel len+1) and the scanner iteration ((end-start)+1 calls) are stated in C08 and C10. Tied to /repo by re-running every component correspondence under a per-case CPU budget in isolated worker processes (a case that exceeds it is re-run alone with ten times the budget before it is called a hang), plus a walker that calls every iterator, formatter, serializer, fsck and scanner query on the shipped PE files and field-level corruptions of them with item-count assertions.",
     note="Partial by nature: wall-clock time and stack bytes are not modelled; the models bound steps and recursion depth. Trusted: Coq kernel, extraction and glue, process isolation and the alarm()-based budget of the harness.",
     extract=["CStrFmt"],
     components=[
